@@ -1429,6 +1429,8 @@ def randmio_dir_signed(R, itr, seed=None):
     rng = get_rng(seed)
     R = R.copy()
     n = len(R)
+    if n < 4:  # a swap needs four distinct nodes: nothing to rewire
+        return R, 0
 
     itr *= n * (n - 1)
 
@@ -1588,6 +1590,8 @@ def randmio_und_signed(R, itr, seed=None):
     rng = get_rng(seed)
     R = R.copy()
     n = len(R)
+    if n < 4:  # a swap needs four distinct nodes: nothing to rewire
+        return R, 0
 
     itr *= int(n * (n -1) / 2)
 
